@@ -76,6 +76,13 @@ pub fn check_seq(s: &Seq, rec: &mut Rec) -> Verdict {
     if v.is_fail() {
         return v;
     }
+    // which two failing calls: derived from the sequence itself (deterministic)
+    let k = key_of(&s.to_json().to_string());
+    let e = error_message_is_latest((k & 0xff) as u8, ((k >> 8) & 0xff) as u8);
+    rec.class("error-message-latest-failure:checked");
+    if e.is_fail() {
+        return e;
+    }
     let n = SEQ_COUNT.fetch_add(1, std::sync::atomic::Ordering::Relaxed) + 1;
     let every = LEAK_EVERY.load(std::sync::atomic::Ordering::Relaxed).max(1);
     if n % every == 0 && leak_check() {
